@@ -118,4 +118,22 @@ CLAIMS = {
                 "create_test_suite/TestSuiteLocalSearch.local_search are assumed contracts; 'covers when re-executed' "
                 "relies on C12's determinism assumption; MIOArchive.update and _GoalsManager.update are not yet under contract.",
     },
+    "C12": {
+        "category": "proof",
+        "text": "Unbounded proof, per function, of the cache invariant 'changed flag up, or every cached value equals F/COV of "
+                "the chromosome's current content': ComputationCache fill/invalidate/query methods (a query returns the "
+                "recomputed value, clears the flag and raises no KeyError for a registered function - including queries for "
+                "different functions in any order via the size comparison), clone/constructors copy a valid cache, "
+                "registering a function keeps it valid, and every operator that can change tests (splice_test_case/"
+                "suite_chromosomes, TestCaseMutation.mutate and its delete/change/insert helpers, TestSuiteMutation.mutate, "
+                "add/set/add-many on suites, the chromosome trampolines) raises the flag whenever content changed and never "
+                "lowers it.",
+        "note": "assumed: fitness/coverage functions are deterministic functions of content (F, COV; the property's own "
+                "assumption); the libcst TestCase and the TestFactory are abstract (ghost g_code) with assumed contracts: "
+                "clone copies content, a mutator returning False/-1 left the test unchanged, __eq__ True implies equal "
+                "content; a suite's content is the set of its non-empty tests and their contents and no two tests of a suite "
+                "share a TestCase object (precondition OWN); get_fitness/get_coverage (sum/mean), set_*_values, "
+                "delete_test_case_chromosome, local search and the histories themselves (composition of the per-function "
+                "contracts) are not discharged by the solver.",
+    },
 }
